@@ -50,6 +50,10 @@ type SymReq struct {
 	// request headers the library has no business reading (it reads Content-Type only): method overrides,
 	// forwarding and identity headers.  Sent to the implementation, invisible to the model.
 	Hdr [][2]string `json:"hdr,omitempty"`
+	// the method put on the wire when it is one the model has no name for (OPTIONS, HEAD, PATCH): only on
+	// application routes, where the access middleware and the probe handler treat every method alike; the model
+	// sees Method
+	Wire string `json:"wire,omitempty"`
 }
 
 type SeedSpec struct {
@@ -536,7 +540,7 @@ func (r *Run) exec(s SymStep) StepRec {
 	switch s.Kind {
 	case "req":
 		q := Req{Browser: s.Req.Browser, Method: s.Req.Method, Route: s.Req.Route, Arg: s.Req.Arg, Path: s.Req.Path,
-			Query: r.resolveKVs(s.Req.Query), Form: r.resolveKVs(s.Req.Form), BadBody: s.Req.BadBody, RawOverride: s.Req.RawQuery, Hdr: s.Req.Hdr}
+			Query: r.resolveKVs(s.Req.Query), Form: r.resolveKVs(s.Req.Form), BadBody: s.Req.BadBody, RawOverride: s.Req.RawQuery, Hdr: s.Req.Hdr, Wire: s.Req.Wire}
 		q.fill()
 		browser = q.Browser
 		code, haveCode := "", false
